@@ -45,6 +45,12 @@ META = {
  "C31": ("TLC relational validation: two independent real runs per configuration must be identical event by event (TV_Pairs) + NewOK for the Known strategy",
          "For Known and Seeded strategies with seeded timers two independent runs of the same scripted scenario are recorded and TLC requires every event (header with full initial memory, per-step projection, environment, outcome) to be equal; NewOK states the Known-strategy initialization rule.",
          "Unseeded strategy and OS-seeded timers are outside the property.", "5 (C31)"),
+ "C15": ("TLC: MC_WordInit exhaustive at widths 3 and 4 (all masks, all completions) + TLC table validation of the real Word operators at 16 bits with TLC-enumerated completions",
+         "The propagation rules of spec/WordInit.tla are model-checked exhaustively at reduced widths (every operand pair, mask and completion); the real 16-bit operators are recorded through the mask hooks and TLC decides soundness by enumerating all completions of pairs with few unknown bits and by witnesses (unknown bits re-drawn through the real operators) for arbitrary masks; fully initialized operands must give the wrapping value with a full mask.",
+         "Needs the Word::verif_mask / verif_from_parts hooks. The rules are width-uniform, which is what connects the reduced-width proof to 16 bits.", "5 (C15)"),
+ "C34": ("TLC: MC_Timer (timer design vs. observer automaton TimerProp, all ranges/draws/interleavings within 1..4) + TLC trace validation of real TimerDevice poll sequences and same-seed pairs",
+         "TimerProp is an observer automaton for the property (gaps within range, first interrupt at most max+1 polls after enable/reset, none while disabled). MC_Timer explores the timer design of spec/Machine.tla against it; real TimerDevice poll sequences with toggles, resets and range changes are validated by TLC with the automaton on the logged fire sequence, pairs with equal seeds must be identical, and in-simulator runs validate each timer interrupt entry.",
+         "A remaining time drawn under an earlier range is not judged (property: while its range is unchanged).", "5 (C34)"),
  "C35": ("TLC: MC_Offsets (arithmetic vs shift definition, all N and values) + TLC table validation of real Offset::new/new_trunc",
          "MC_Offsets proves for all N in 1..16 and all 16-bit values that the property's arithmetic statement equals the shift-based computation; the real Offset::<i16|u16,N>::new/new_trunc/get results are validated record by record against the arithmetic statement: boundary+random values in quick, all 2 097 152 (N, value) cases in thorough.",
          "The 32 monomorphic instantiations are generated by macro in harness/src/tables.rs.", "5 (C35)"),
